@@ -105,6 +105,7 @@ class Checker(object):
         self.rep = rep
         self.rng = random.Random(rep.seed * 67867967 + rep.shard)
         self.sb = J.ShrinkBudget(rep, 25)
+        self.reused = {}
 
     # ------------------------------------------------------------------ CNF
     def cnf_once(self, proc, b):
@@ -138,6 +139,19 @@ class Checker(object):
                 elif proc == 'PolarityCNFizer.convert':
                     clset = RW.PolarityCNFizer(env).convert(f)
                     r = None
+                elif proc in ('CNFizer.reused', 'PolarityCNFizer.reused'):
+                    # one converter object for all formulas of this
+                    # environment (state carried across conversions)
+                    inst = self.reused.get((id(env), proc))
+                    if inst is None:
+                        cls_ = RW.CNFizer if proc == 'CNFizer.reused' \
+                            else RW.PolarityCNFizer
+                        inst = cls_(env)
+                        self.reused.clear()
+                        self.reused[(id(env), proc)] = inst
+                        self.keep_env = env
+                    r = inst.convert_as_formula(f)
+                    clset = None
                 else:
                     raise ValueError(proc)
         except Exception as e:
@@ -223,7 +237,7 @@ class Checker(object):
         return None, None
 
     # ----------------------------------------------------------- Ackermann
-    def ack_once(self, b):
+    def ack_once(self, b, reuse=False):
         from pysmt.environment import get_env
         from pysmt import rewritings as RW
         env = get_env()
@@ -235,7 +249,15 @@ class Checker(object):
         if B.typeof(fb) != B.BOOL:
             return 'build', 'not boolean'
         try:
-            ack = RW.Ackermannizer(env)
+            if reuse:
+                ack = self.reused.get((id(env), 'ack'))
+                if ack is None:
+                    ack = RW.Ackermannizer(env)
+                    self.reused.clear()
+                    self.reused[(id(env), 'ack')] = ack
+                    self.keep_env = env
+            else:
+                ack = RW.Ackermannizer(env)
             r = ack.do_ackermannization(f)
             t2c = ack.get_term_to_const_dict()
         except Exception as e:
@@ -350,8 +372,11 @@ class Checker(object):
 
     def check(self, proc, b, j):
         rep = self.rep
-        once = (self.ack_once if proc == 'ackermann'
-                else (lambda x: self.cnf_once(proc, x)))
+        if proc == 'ackermann.reused':
+            once = lambda x: self.ack_once(x, reuse=True)
+        else:
+            once = (self.ack_once if proc == 'ackermann'
+                    else (lambda x: self.cnf_once(proc, x)))
         kind, info = once(b)
         rep.case(key=hash((proc, b)), sample='%s: %s' % (proc, B.show(b, 120))
                  if j % 301 == 0 else None)
@@ -359,6 +384,14 @@ class Checker(object):
             return
         if kind == 'build':
             rep.count('build_rejected_or_outside_fragment')
+            return
+
+        if proc.endswith('.reused'):
+            # the converter object carries state: no re-runs for shrinking
+            rep.violation('%s/%s/%s' % (PROP, proc, kind), '%s: %s (the '
+                          'same converter object had converted other '
+                          'formulas before)' % (kind, info),
+                          {'bp': B.to_json(b), 'proc': proc, 'kind': kind})
             return
 
         def fails(x):
@@ -517,6 +550,38 @@ def run(rep):
             if want('ackermann'):
                 ck.check('ackermann', b, j)
                 j += 1
+        # converter objects used for several formulas in a row
+        common.fresh_env()
+        pa, pb_, pc = (B.Sym('p0', B.BOOL), B.Sym('p1', B.BOOL),
+                       B.Sym('p2', B.BOOL))
+        ab = ('and', None, (pa, pb_))
+        seq = [('or', None, (ab, pc)), ('iff', None, (ab, pc)),
+               ('not', None, (('or', None, (ab, pc)),)),
+               ('ite', None, (ab, pc, ('not', None, (pc,)))),
+               ('implies', None, (pc, ab)), ('iff', None, (pc, ('not', None,
+                                                                (ab,))))]
+        for proc in ('CNFizer.reused', 'PolarityCNFizer.reused'):
+            if want(proc):
+                for b in seq + seq[::-1]:
+                    ck.check(proc, b, j)
+                    j += 1
+        common.fresh_env()
+        FB = B.FUN(B.BV(1), (B.BV(1),))
+        x_, y_, z_ = (B.Sym('b1_0', B.BV(1)), B.Sym('b1_1', B.BV(1)),
+                      B.Sym('b1_2', B.BV(1)))
+        fa = lambda a: B.App('f', FB, (a,))
+        eq_ = lambda a, b: ('eq', None, (a, b))
+        aseq = [eq_(fa(x_), x_),
+                ('and', None, (eq_(x_, z_), ('not', None, (
+                    eq_(fa(x_), fa(z_)),)))),
+                ('and', None, (eq_(y_, z_), ('not', None, (
+                    eq_(fa(y_), fa(z_)),)))),
+                eq_(fa(fa(y_)), x_)]
+        if want('ackermann.reused'):
+            for b in aseq + aseq[::-1]:
+                ck.check('ackermann.reused', b, j)
+                j += 1
+        common.fresh_env()
     n = 250 if quick else 40000
     rep.share(0.6)
     for k in range(n):
@@ -526,7 +591,8 @@ def run(rep):
         if k % 100 == 0:
             common.fresh_env()
         b = cnf_formula(rng)
-        for proc in procs:
+        for proc in procs + (['CNFizer.reused', 'PolarityCNFizer.reused']
+                             if k % 3 == 0 else []):
             if want(proc):
                 ck.check(proc, b, j)
                 j += 1
@@ -540,6 +606,9 @@ def run(rep):
             common.fresh_env()
         if want('ackermann'):
             ck.check('ackermann', ack_formula(rng), j)
+            j += 1
+        if k % 3 == 0 and want('ackermann.reused'):
+            ck.check('ackermann.reused', ack_formula(rng), j)
             j += 1
 
 
